@@ -39,21 +39,6 @@ theorem rows_fit_widths {V : Type} (P : Params V) (L : Layout) (hL : L.Pos) (d0 
   obtain ⟨h1, h2, h3, h4, h5⟩ := hw r hr ty a b hf
   exact ⟨h1, h2, h3, beBytes_length _ _, beBytes_length _ _, h4, h5⟩
 
-/-- what `build` returns, unfolded -/
-theorem build_ok_iff (L : Layout) (cached : Bool) (pages : List (PageSpec A R C)) (info : Option I)
-    (d' : Doc (BV A R C I)) (i : SaveInfo) (h : build L cached pages info = .ok (d', i)) :
-    ∃ d, prepare cached pages info = .ok d ∧ Prepared cached pages info d ∧ save params L d = (d', .ok i) := by
-  obtain ⟨d, hp, hpr⟩ := prepare_spec cached pages info
-  refine ⟨d, hp, hpr, ?_⟩
-  unfold build at h
-  rw [hp] at h
-  simp only at h
-  generalize hs : save params L d = res at h
-  obtain ⟨d2, o⟩ := res
-  cases o <;> simp at h
-  obtain ⟨rfl, rfl⟩ := h
-  rfl
-
 /-- **C10, the builder never fails** on a page list that fits the reader's object limit:
     no promise stays open, every value is serialisable, the catalog is there. -/
 theorem build_total (L : Layout) (hL : L.Pos) (cached : Bool) (pages : List (PageSpec A R C)) (info : Option I)
